@@ -162,8 +162,8 @@ def search_one(ctx, d):
         ctx.count('search:error:' + type(e).__name__); return
     st, tv = true_value(d)
     ctx.count('true:' + st)
-    conic = bool(d['S0']['norm'] and d['S0']['norm'][0] == 2) or bool(d['S0'].get('quad')) or any(
-        c['own'] and ((c['own']['norm'] and c['own']['norm'][0] == 2) or c['own'].get('quad')) for c in d['cons'])
+    conic = bool(d['S0']['norm'] and d['S0']['norm'][0] == 2) or bool(d['S0'].get('quad')) or bool(d['S0'].get('xc')) or any(
+        c['own'] and ((c['own']['norm'] and c['own']['norm'][0] == 2) or c['own'].get('quad') or c['own'].get('xc')) for c in d['cons'])
     case = {"desc": d}
     has_eq = any(c['sense'] == 'eq' for c in d['cons'])
     if has_eq and st != 'ok':
